@@ -74,6 +74,9 @@ def run(ctx):
               only={DI: ('DWARFInfo._parse_CU', 'DWARFInfo._parse_TU', 'DWARFInfo._cached_CU', 'DWARFInfo.get_abbrev', 'DWARFInfo.get_string',
                          'DWARFInfo.get_addr', 'DWARFInfo.get_CU', 'DWARFInfo.get_DIE', 'DWARFInfo.iter_', 'DWARFInfo._parse_debug_types',
                          'DWARFInfo.get_TU')})
+    ctx.rule('R-GEN', 'navigation generators end by returning (PEP 479: StopIteration raised inside a generator surfaces as RuntimeError)')
+    ctx.guard('R-GEN', 'generators', check_generators, ctx, w)
+    ctx.floor('R-GEN', 2)
     # enumeration answers must not come out of a half-filled memo (shared with C10)
     from sa import partial
     ctx.rule('J-PARTIAL', 'the entries of a unit are never served from a container that was filled between yields or one entry per query')
@@ -598,6 +601,7 @@ def check_unit(ctx, w):
 
 
 MUTANTS = [
+    ('siblings-stopiteration', 'dwarf/die.py', "                if sibling is not self:\n                    yield sibling\n", "                if sibling is not self:\n                    yield sibling\n        else:\n            raise StopIteration()\n", 'R-GEN'),
     ('strx-container-format', 'dwarf/die.py', "            offset_size = 4 if self.cu.structs.dwarf_format == 32 else 8", "            offset_size = 4 if self.dwarfinfo.structs.dwarf_format == 32 else 8", 'G-OWNER'),
     ('strx-container-width', 'dwarf/die.py', "            str_offset = struct_parse(self.cu.structs.the_Dwarf_offset, stream,", "            str_offset = struct_parse(self.dwarfinfo.structs.the_Dwarf_offset, stream,", 'G-OWNER'),
     ('cu-iter-container-initlen', 'dwarf/dwarfinfo.py', "                      cu.structs.initial_length_field_size())", "                      self.structs.initial_length_field_size())", 'G-OWNER'),
@@ -627,3 +631,42 @@ MUTANTS = [
     ('indirect-length', DIE, "                length += 1\n", "                pass\n", 'W-DIE'),
     ('attr-offset-late', DIE, "                attr_offset = stream.tell()\n                indirection_length = 0", "                indirection_length = 0", 'W-DIE'),
 ]
+
+
+GEN_SAMPLE = """
+def iter_siblings(self):
+    parent = self.get_parent()
+    if parent:
+        for s in parent.iter_children():
+            yield s
+    else:
+        raise StopIteration()
+"""
+
+
+def _stopiteration_raises(fnode):
+    from sa.model import walk_no_nested
+    nodes = list(walk_no_nested(fnode))
+    if not any(isinstance(n, (ast.Yield, ast.YieldFrom)) for n in nodes):
+        return []
+    return [n for n in nodes if isinstance(n, ast.Raise) and n.exc is not None and
+            (U(n.exc) in ('StopIteration', 'StopIteration()') or U(n.exc).startswith('StopIteration('))]
+
+
+def check_generators(ctx, w):
+    """An entry without siblings / children has an empty list of them: the generator that enumerates it must simply end.  Since PEP 479
+    (Python 3.7) `raise StopIteration` inside a generator body is turned into RuntimeError at the caller."""
+    hit = _stopiteration_raises(ast.parse(GEN_SAMPLE).body[0])
+    ctx.ob('R-GEN', 'built-in sample', 'the rule fires on its positive example', len(hit) == 1, got=len(hit))
+    n = 0
+    for f in w.model.library_funcs():
+        if '/construct/' in f.mod:
+            continue
+        from sa.model import walk_no_nested
+        if not any(isinstance(x, (ast.Yield, ast.YieldFrom)) for x in walk_no_nested(f.node)):
+            continue
+        n += 1
+        for r in _stopiteration_raises(f.node):
+            ctx.ob('R-GEN', f.construct, 'raise StopIteration in a generator', False, line=r.lineno, got=U(r),
+                   msg='the enumeration of an empty list (an entry without a parent has no siblings) raises RuntimeError instead of yielding nothing')
+    ctx.ob('R-GEN', 'library', 'generator functions examined', n > 30, sample='%d generator functions' % n, got=n)
